@@ -107,7 +107,9 @@ func (g *PackageLoader) localConfig(pkg *packages.Package, name string) method.L
 		fns = map[string]method.LocalOpts{}
 		for _, file := range pkg.Syntax {
 			for _, decl := range file.Decls {
-				if fn, ok := decl.(*ast.FuncDecl); ok {
+				// custom functions are package level functions, the comments of
+				// methods with the same name do not belong to them
+				if fn, ok := decl.(*ast.FuncDecl); ok && fn.Recv == nil {
 					lines := parse.SettingLines(parse.CommentToString(fn.Doc))
 					if len(lines) == 0 {
 						continue
